@@ -125,7 +125,11 @@ func read(t int, what string, r *lazyproto.DecodeResult, def lazyproto.Def, fiel
 			}
 		}
 		// raw values are kept across a scheduling point and re-checked
-		x := lazyref.Retain(r, tag, fmt.Sprintf("T%d %s tag %d", t, what, tag))
+		retainF := lazyref.Retain
+		if safeMode {
+			retainF = lazyref.RetainAll
+		}
+		x := retainF(r, tag, fmt.Sprintf("T%d %s tag %d", t, what, tag))
 		vsync.Point("api:after-accessors")
 		if m := x.Verify(); m != "" {
 			vsync.Failf("isolation/value-changed-while-other-threads-ran", "%s", m)
@@ -133,7 +137,11 @@ func read(t int, what string, r *lazyproto.DecodeResult, def lazyproto.Def, fiel
 	}
 }
 
+// safeMode: the scenario being explored decodes in safe mode (set per scenario; one scenario runs at a time)
+var safeMode bool
+
 func mkHarness(sc scenario) func() vsync.Harness {
+	safeMode = sc.mode == csproto.DecoderModeSafe
 	def := theDef()
 	inputs := make([][][]byte, sc.threads)
 	refs := make([][]map[int][]lazyref.Occ, sc.threads)
